@@ -165,9 +165,15 @@ theorem hibit_spec (k x : Nat) (h0 : x ≠ 0) (hk : x < 2 ^ k) :
 def inBucket (n i x : Nat) : Bool :=
   decide ((if i = 0 then 0 else 2 ^ (i - 1)) ≤ x) && (decide (n ≤ i + 1) || decide (x < 2 ^ i))
 
-theorem shouldIncr_eq (c : HCfg) (i x : Nat) (hn : 2 ≤ c.n) (hi : i < c.n) (hx : x < 2 ^ c.sw) :
+theorem shouldIncr_eq (c : HCfg) (i x : Nat) (hi : i < c.n) (hx : x < 2 ^ c.sw) :
     c.shouldIncr i x = inBucket c.n i x := by
   unfold HCfg.shouldIncr inBucket
+  by_cases hn1 : c.n = 1
+  · have hi0 : i = 0 := by omega
+    subst hi0
+    simp [hn1]
+  have hn : 2 ≤ c.n := by omega
+  simp only [hn1, if_false]
   by_cases hi0 : i = 0
   · subst hi0
     have : ¬ c.n ≤ 0 + 1 := by omega
